@@ -374,8 +374,9 @@ class StoreWorld:
             self.res.count("store_items_left_without_working_file")
             stale = [e for (_, e) in m.history if e != m.etag]
             wrong = rng.choice(stale) if stale and rng.random() < 0.6 else rng.choice(["0" * 40, (self.model[rng.choice(live)].etag or "0" * 40)])
-            if wrong != m.etag:
-                self.do_delete("delete-cond-stale-without-file", n, etag=wrong, expect={"C03": "InvalidETag"})
+            if wrong == m.etag:
+                wrong = "0" * 40
+            self.do_delete("delete-cond-stale-without-file", n, etag=wrong, expect={"C03": "InvalidETag"})
             if rng.random() < 0.5 and n in self.model:
                 self.do_delete("delete-cond-current-without-file", n, etag=m.etag, expect={"C03": "ok"})
         elif op == "invalid":
@@ -429,7 +430,7 @@ class StoreWorld:
         else:
             return False
         last = self.log[-1]
-        self.audit("after-success" if last["outcome"] == "ok" else "after-nonsuccess")
+        self.audit("after-success" if last.get("outcome") == "ok" else "after-nonsuccess")
         return True
 
 
